@@ -103,6 +103,9 @@ fn cases(ctx: &Ctx) -> Vec<Case> {
             "random" => want / 3,
             "corpus" => f.count,
             "bulk" => 2,
+            "duplicated-wide-fans" | "fan-then-single-path-to-the-shared-suffix" => 40,
+            "cache-digest-collision" | "fanout-x-width" => 24,
+            "recurring-wide-nodes-after-filler" => f.count,
             _ => 0,
         };
         let take = take.min(f.count);
